@@ -39,3 +39,72 @@ package types
 //@   trusted
 //@   modifies nothing
 //@ end
+
+// ---------------------------------------------------------------------------
+// acme storages (C17): add/del bookkeeping of the certificates to request
+
+//@ spec func acmeWF(c *AcmeStorages) bool = c != nil && c.items != nil && c.itemsAdd != nil && c.itemsDel != nil
+//@     && c.itemsAdd != c.itemsDel && c.items != c.itemsAdd && c.items != c.itemsDel
+//@     && (forall n string :: (in(n, c.items) ==> c.items[n] != nil) && (in(n, c.itemsAdd) ==> c.itemsAdd[n] != nil) && (in(n, c.itemsDel) ==> c.itemsDel[n] != nil))
+//@ spec func sameCerts(a *AcmeCerts, b *AcmeCerts) bool = deepEq(iface(a), iface(b))
+
+// an add/del pair is dropped iff the re-created storage equals the removed one
+//@ func (*AcmeStorages).shrink
+//@   props C17
+//@   requires wf: acmeWF(c)
+//@   modifies c.itemsAdd[*], c.itemsDel[*]
+//@   ensures dropped: forall n string :: old(in(n, c.itemsAdd)) && old(in(n, c.itemsDel)) && sameCerts(old(c.itemsAdd[n]), old(c.itemsDel[n])) ==> !in(n, c.itemsAdd) && !in(n, c.itemsDel)
+//@   ensures remains: forall n string :: !(old(in(n, c.itemsAdd)) && old(in(n, c.itemsDel)) && sameCerts(old(c.itemsAdd[n]), old(c.itemsDel[n]))) ==>
+//@       in(n, c.itemsAdd) == old(in(n, c.itemsAdd)) && in(n, c.itemsDel) == old(in(n, c.itemsDel))
+//@   ensures wf:      acmeWF(c)
+//@   ensures values:  forall n string :: (in(n, c.itemsAdd) ==> c.itemsAdd[n] == old(c.itemsAdd[n])) && (in(n, c.itemsDel) ==> c.itemsDel[n] == old(c.itemsDel[n]))
+//@   loop 1 invariant wf:     acmeWF(c) && c.itemsAdd == old(c.itemsAdd) && c.itemsDel == old(c.itemsDel)
+//@   loop 1 invariant sub:    forall n string :: (in(n, c.itemsAdd) ==> old(in(n, c.itemsAdd)) && c.itemsAdd[n] == old(c.itemsAdd[n])) && (in(n, c.itemsDel) ==> old(in(n, c.itemsDel)) && c.itemsDel[n] == old(c.itemsDel[n]))
+//@   loop 1 invariant seenin: forall n string :: $seen(1, n) ==> old(in(n, c.itemsDel))
+//@   loop 1 invariant gone:   forall n string :: old(in(n, c.itemsDel)) && !in(n, c.itemsDel) ==> $seen(1, n) && old(in(n, c.itemsAdd)) && sameCerts(old(c.itemsAdd[n]), old(c.itemsDel[n])) && !in(n, c.itemsAdd)
+//@   loop 1 invariant addgone: forall n string :: old(in(n, c.itemsAdd)) && !in(n, c.itemsAdd) ==> old(in(n, c.itemsDel)) && !in(n, c.itemsDel)
+//@   loop 1 invariant done:   forall n string :: $seen(1, n) && in(n, c.itemsDel) ==> !(old(in(n, c.itemsAdd)) && sameCerts(old(c.itemsAdd[n]), old(c.itemsDel[n])))
+//@ end
+
+// builds the "name,chain,domains" strings of a set of storages; reads only
+//@ func buildAcmeStorages
+//@   props C17
+//@   requires items != nil && forall n string :: in(n, items) ==> items[n] != nil
+//@   modifies nothing
+//@   ensures count: len(result) == len(items)
+//@   loop 1 invariant own:  fresh(storages) && len(storages) == len(items) && 0 <= i && i <= len(items)
+//@   loop 2 invariant own:  fresh(storages) && fresh(certs) && len(storages) == len(items) && 0 <= i && i <= len(items) && 0 <= j
+//@ end
+
+//@ func (*AcmeStorages).Acquire
+//@   props C17
+//@   requires wf: acmeWF(c)
+//@   modifies c.items[*], c.itemsAdd[*]
+//@   ensures found:   result != nil && in(name, c.items) && c.items[name] == result
+//@   ensures reuse:   old(in(name, c.items)) ==> result == old(c.items[name]) && in(name, c.itemsAdd) == old(in(name, c.itemsAdd))
+//@   ensures created: !old(in(name, c.items)) ==> fresh(result) && in(name, c.itemsAdd) && c.itemsAdd[name] == result
+//@   ensures others:  forall n string :: n != name ==> in(n, c.items) == old(in(n, c.items)) && c.items[n] == old(c.items[n]) && in(n, c.itemsAdd) == old(in(n, c.itemsAdd)) && c.itemsAdd[n] == old(c.itemsAdd[n])
+//@   ensures wf:      acmeWF(c)
+//@ end
+
+//@ func (*AcmeStorages).RemoveAll
+//@   props C17
+//@   requires wf: acmeWF(c)
+//@   modifies c.items[*], c.itemsDel[*]
+//@   ensures gone:  forall k int :: 0 <= k && k < len(names) ==> !in(names[k], c.items)
+//@   ensures moved: forall n string :: old(in(n, c.items)) && !in(n, c.items) ==> in(n, c.itemsDel) && c.itemsDel[n] == old(c.items[n])
+//@   ensures kept:  forall n string :: in(n, c.items) ==> old(in(n, c.items)) && c.items[n] == old(c.items[n])
+//@   ensures wf:    acmeWF(c)
+//@   loop 1 invariant wf:    acmeWF(c) && c.items == old(c.items) && c.itemsDel == old(c.itemsDel) && 0 <= $idx(1) && $idx(1) <= len(names)
+//@   loop 1 invariant gone:  forall k int :: 0 <= k && k < $idx(1) ==> !in(names[k], c.items)
+//@   loop 1 invariant moved: forall n string :: old(in(n, c.items)) && !in(n, c.items) ==> in(n, c.itemsDel) && c.itemsDel[n] == old(c.items[n])
+//@   loop 1 invariant kept:  forall n string :: in(n, c.items) ==> old(in(n, c.items)) && c.items[n] == old(c.items[n])
+//@ end
+
+//@ func (*AcmeStorages).Commit
+//@   props C17
+//@   requires wf: acmeWF(c)
+//@   modifies c.itemsAdd, c.itemsDel
+//@   ensures empty: len(c.itemsAdd) == 0 && len(c.itemsDel) == 0
+//@   ensures wf:    acmeWF(c)
+//@ end
